@@ -5,6 +5,7 @@ import (
 	"encoding/json"
 	"fmt"
 	"os"
+	"path/filepath"
 
 	"github.com/modernizing/coca/cmd"
 	"github.com/modernizing/coca/pkg/application/analysis/javaapp"
@@ -190,6 +191,39 @@ func dispatch(op Op) (interface{}, error) {
 		results := app.Analysis()
 		app.Refactoring(results)
 		return len(results), nil
+
+	case "snapshot":
+		// harness op: the state of a directory tree (durable state between operations)
+		var a struct {
+			Dir string `json:"dir"`
+		}
+		if err := json.Unmarshal(op.Args, &a); err != nil {
+			return nil, err
+		}
+		type ent struct {
+			Mode string `json:"mode"`
+			Text string `json:"text"`
+		}
+		snap := map[string]ent{}
+		err := filepath.Walk(a.Dir, func(p string, info os.FileInfo, err error) error {
+			if err != nil {
+				return err
+			}
+			if info.IsDir() {
+				return nil
+			}
+			b, err := os.ReadFile(p)
+			if err != nil {
+				return err
+			}
+			rel, _ := filepath.Rel(a.Dir, p)
+			snap[filepath.ToSlash(rel)] = ent{info.Mode().String(), string(b)}
+			return nil
+		})
+		if err != nil {
+			return nil, err
+		}
+		return snap, nil
 
 	case "git":
 		var a struct {
